@@ -410,6 +410,40 @@ func (c *Ctx) decouplingRule(rule string) {
 			}
 		}
 	})
+	// the value put into the intake case's Chan is reflect.ValueOf(intake) on every way there: a variable
+	// that is reset to the zero reflect.Value under some condition (Select ignores such a case) disables
+	// the intake just like a nil channel
+	c.bufInstrs(func(in ssa.Instruction) {
+		st, ok := in.(*ssa.Store)
+		if !ok || !isNamed(st.Val.Type(), "reflect", "Value") {
+			return
+		}
+		fa, ok := st.Addr.(*ssa.FieldAddr)
+		if !ok || !isNamed(fa.X.Type(), "reflect", "SelectCase") {
+			return
+		}
+		os := c.origins(st.Val)
+		isIntake, hasZero := false, false
+		for _, o := range os {
+			if call, ok := o.Root.(*ssa.Call); ok && len(o.Fields) == 0 && calleeName(call) == "reflect.ValueOf" {
+				a := stripConv(call.Common().Args[0])
+				if ch, ok := a.Type().Underlying().(*types.Chan); ok && isNamed(ch.Elem(), "reflect", "Value") {
+					isIntake = true
+				}
+			}
+			if k, ok := o.Root.(*ssa.Const); ok && k.Value == nil {
+				hasZero = true
+			}
+			if al, ok := o.Root.(*ssa.Alloc); ok && len(o.Fields) == 0 {
+				hasZero = true // a zero-valued local
+				_ = al
+			}
+		}
+		if isIntake && hasZero {
+			okAll = false
+			c.bad(rule, construct, c.ipos(st), "the intake case gets the zero reflect.Value under some condition (e.g. while the backlog is long), which makes Select ignore it: once the intake is not drained, the sink blocks inside the single frame executor and every call and stream on the connection stalls behind one slow consumer")
+		}
+	})
 	if !hasIntake {
 		okAll = false
 		c.bad(rule, construct, p.pos(buf.Pos()), "the intake channel is not among the select cases")
